@@ -122,6 +122,22 @@ def run(ctx, replay_case):
             ctx.violations.append({"kind": "concrete", "signature": "size:" + problem.split(" ")[0],
                                    "what": f"size fault {c.meta['field']} {c.meta['was']}->{c.meta['now']}: {problem}",
                                    "replay": {**c.replay("S"), "result": b[-1][:240]}})
+    # exhaustive small world (the quantifier's "all byte strings up to a length bound over a small alphabet for nested types"):
+    # model == implementation on every one of them, and whatever is accepted is exact
+    sw = ds.small_world(ctx.tier)
+    swres = ds.run_both(sw, "S")
+    swimpl, swmodel = swres["S"]
+    ds.correspondence_violation(ctx, "DEC strict (small world)", sw, "S", swimpl, swmodel)
+    sw_out = collections.Counter()
+    for c, b in zip(sw, swimpl):
+        sw_out[ds.outcome(b)] += 1
+        if b[-1].startswith("R done"):
+            for path, val, g in governed(b, L, len(c.data)):
+                if val != g:
+                    ctx.violations.append({"kind": "concrete", "signature": "accepted-inexact",
+                                           "what": f"strict mode accepted an input whose size field {path}={val} governs {g} bytes",
+                                           "replay": c.replay("S")})
+    ctx.stats.setdefault("small_world", {}).update({"strings": len(sw), "outcomes": dict(sw_out)})
     ctx.stats.update({
         "evaluations": len(faults) + len(wf), "distinct_nontrivial": len({(c.tname, c.cc, c.data) for c in faults}),
         "rule": "every size field (commandSize, responseSize, authSize, parameterSize, every TPM2B size at every nesting depth) of "
